@@ -272,7 +272,8 @@ Exec(m, fr, rest) ==
              u == Unify(m.st, g.a[1], ListOf(m.lh[n].items))
              m1 == [m EXCEPT !.lh = SubSeq(m.lh, 1, n - 1)]
          IN IF u.ok THEN [m1 EXCEPT !.st = u.st, !.gs = rest] ELSE Backtrack(m1)
-    [] IsF(g, "log", 1) -> [cont EXCEPT !.out = Append(@, Apply(m.st, g.a[1]))]
+    [] IsF(g, "log", 1) ->      \* the log keeps a copy (fresh variables), like assertz of a log fact
+         LET cp == CopyOf(m.st, g.a[1], m.k) IN [cont EXCEPT !.k = m.k + cp[2], !.out = Append(@, cp[1])]
     [] IsF(g, "bb_put", 2) ->
          LET kx == Deref(m.st, g.a[1]) IN
          IF kx.t # "a" THEN Throw(m, InstErr)
@@ -312,7 +313,7 @@ Exec(m, fr, rest) ==
          ELSE LET c == ClauseById(m, l.a[1].i)
                   more == l.a[2]
                   u == Unify(m.st, g.a[1], Rename(C2(":-", c.h, c.b), m.k))
-              IN IF c.dead \/ ~u.ok THEN [m EXCEPT !.gs = <<F(C2("$retract", g.a[1], more), cb)>> \o rest]
+              IN IF (c.dead /\ ~m.ve) \/ ~u.ok THEN [m EXCEPT !.gs = <<F(C2("$retract", g.a[1], more), cb)>> \o rest]
                  ELSE LET j == CHOOSE j \in 1..Len(m.db) : m.db[j].id = c.id
                           cps1 == IF IsA(more, "[]") THEN m.cps
                                   ELSE Append(m.cps, CP("alt", <<F(C2("$retract", g.a[1], more), cb)>> \o rest, m.st, None, None))
@@ -354,7 +355,9 @@ Load(prog, dyn, q) ==
    dyn |-> dyn,
    static |-> {Key(prog[j].h) : j \in 1..Len(prog)} \ dyn,
    st |-> EmptyStore, gs |-> <<F(q, 0)>>, cps |-> <<>>, k |-> 1, ans |-> <<>>, ball |-> None,
-   lh |-> <<>>, out |-> <<>>, gv |-> <<>>]
+   lh |-> <<>>, out |-> <<>>, gv |-> <<>>,
+   ve |-> FALSE]   \* ve: does a re-entered retract/1 still report a clause of its snapshot that was erased meanwhile?
+                   \* (ISO 8.9.3 read literally: yes; most systems: no).  Unspecified by the property: models try both.
 
 RECURSIVE Run(_)
 Run(m) == IF m.phase = "done" THEN m ELSE Run(Step(m))
